@@ -90,6 +90,17 @@ def build(case):
         o = IM.Image(im)
         for k, v in d.items():
             setattr(o, k, copy.deepcopy(v))
+        if i % 2 == 0 and isinstance(d.get("additional_variants"), list) and d["additional_variants"]:
+            # the list is filled IN PLACE, after the object was identified once while it was still empty
+            o.additional_variants = []
+            try:
+                IM.identify_image(o)
+            except Exception:
+                pass
+            o.additional_variants.extend(copy.deepcopy(d["additional_variants"]))
+        if i % 2 == 0 and isinstance(d.get("checksums"), dict) and d["checksums"]:
+            o.checksums = {}
+            o.checksums.update(copy.deepcopy(d["checksums"]))
         pool.append(o)
         ids[id(o)] = i
     return im, pool, ids
@@ -163,10 +174,23 @@ def impl_load(case):
             im.loads(json.dumps(case["preload"]))         # the same object is used for a second load
         except Exception:
             pass
+    if case.get("pre") == "failed":
+        try:        # a current-version document that is refused after its header was read
+            im.loads(json.dumps({"header": {"version": "1.2", "type": "productmd.images"}, "payload": {}}))
+        except Exception:
+            pass
+    elif case.get("pre") == "add":
+        held = IM.Image(im)     # the manifest already holds an image (in a variant of its own) when the document is loaded
+        for k, v in {"path": "Held/x.iso", "mtime": 1, "size": 1, "volume_id": None, "type": "dvd", "format": "iso", "arch": "x86_64",
+                     "disc_number": 1, "disc_count": 1, "checksums": {"sha256": "a" * 64}, "implant_md5": None, "bootable": False,
+                     "subvariant": "Held"}.items():
+            setattr(held, k, v)
+        im.add("Held-held", "x86_64", held)
     try:
         im.loads(json.dumps(case["doc"]))
     except EXC as e:
         return exc_result(e)
+    im.images.pop("Held-held", None)
     return ["ok", describe(im)]
 
 
